@@ -1,5 +1,6 @@
 import AkVerif.Lemmas.GhistReport
 import AkVerif.Lemmas.GhistTotal
+import AkVerif.Lemmas.GhistWindow
 /-!
 # C06 — the history report attributes every matching commit to the right build per branch
 
@@ -53,12 +54,25 @@ theorem order_num_lt_word (pre s t : List Item) (a : Nat) (w : List Char) :
     simp only [List.cons_append, ltKey, cmpKey, cmpItem_self, ne_eq, not_true_eq_false, if_false]
     exact ih
 
+/-- a name whose sort items are a proper prefix of another's sorts first (`release/1.2 < release/1.2.1`) -/
+theorem order_prefix (pre s : List Item) (x : Item) : ltKey pre (pre ++ x :: s) = true := by
+  induction pre with
+  | nil =>
+    have : cmpKey [] (x :: s) < 0 := by
+      simp only [cmpKey, List.length_nil, List.length_cons]
+      omega
+    simpa [ltKey] using this
+  | cons y pre ih =>
+    simp only [List.cons_append, ltKey, cmpKey, cmpItem_self, ne_eq, not_true_eq_false, if_false]
+    exact ih
+
 /-- the sort items of a name are what the docstring of `BranchName` says -/
 example : branchKey "origin/release/10.250".toList =
     [.str "origin".toList, .str "release".toList, .int 10, .int 250] := by decide
 example : branchKey "release/ABA12.5U1".toList =
     [.str "release".toList, .str "ABA12".toList, .str "5U1".toList] := by decide
 example : ltKey (branchKey "origin/release/1.2".toList) (branchKey "origin/release/1.10".toList) = true := by decide
+example : ltKey (branchKey "origin/release/1.2".toList) (branchKey "origin/release/1.2.1".toList) = true := by decide
 
 /-- every release branch sorts below master: the first sort item of a release branch is the remote name, the
 first item of master is the sentinel `"zzzzzzzzzzzzzz"`.  Hypothesis (as in the design): the remote name is a
@@ -107,13 +121,13 @@ def IsBranch {π β} (h : Hist π) (g : Graph β) (j : Nat) (b : Branch) (B : Re
 
 /-- the report lists one entry per release/master branch that has something to show, master (the highest-sorted
 branch) first, under the branch's name -/
-theorem report_branches {π β} (h : Hist π) (hT : h.Topo) (pl : Plug π β) (rep : List RepBranch)
+theorem report_branches {π β} (h : Hist π) (hT : h.Topo) (hW : h.InWindow) (pl : Plug π β) (rep : List RepBranch)
     (hr : report h pl = .ok rep) :
     ∃ g, rgraph h pl = .ok g ∧ g.all.length = (branchesOf h).length ∧
       rep = ((g.all.map (repBranch g.rcs)).reverse.filter fun B => !B.builds.isEmpty) ∧
       ∀ j b B, IsBranch h g j b B → B.name = b.name := by
   obtain ⟨g, hg, hrep, hbr⟩ := report_branch hr
-  obtain ⟨hlen, hsem⟩ := rgraph_sem hT hg
+  obtain ⟨hlen, hsem⟩ := rgraph_sem hT (rgraph_nw hT hW hg)
   refine ⟨g, hg, hlen, ?_, ?_⟩
   · rw [hrep, hbr, ← List.map_reverse, List.filter_map]
     congr 1
@@ -133,11 +147,11 @@ theorem report_branches {π β} (h : Hist π) (hT : h.Topo) (pl : Plug π β) (r
 
 /-- **C06.no_nonmatching** — no commit that does not match is listed, under any build of any branch, the "not
 merged" entry included -/
-theorem no_nonmatching {π β} (h : Hist π) (hT : h.Topo) (pl : Plug π β) (rep : List RepBranch)
+theorem no_nonmatching {π β} (h : Hist π) (hT : h.Topo) (hW : h.InWindow) (pl : Plug π β) (rep : List RepBranch)
     (hr : report h pl = .ok rep) :
     ∀ B ∈ rep, ∀ b ∈ B.builds, ∀ c ∈ b.commits, h.isMatch c = true := by
   obtain ⟨g, hg, hrep, _⟩ := report_branch hr
-  have hf := rgraph_facts hT hg
+  have hf := rgraph_facts hT (rgraph_nw hT hW hg)
   intro B hB b hb c hc
   rw [hrep] at hB
   obtain ⟨rb, _, rfl⟩ := List.mem_map.mp hB
@@ -147,9 +161,9 @@ theorem no_nonmatching {π β} (h : Hist π) (hT : h.Topo) (pl : Plug π β) (re
   rw [← h3, ← hf.rcExp i rc h1, h2]
 
 section
-variable {π β : Type} (h : Hist π) (hT : h.Topo) (pl : Plug π β) (g : Graph β) (hg : rgraph h pl = .ok g)
-variable (j : Nat) (b : Branch) (B : RepBranch) (hB : IsBranch h g j b B)
-include hT hg hB
+variable {π β : Type} (h : Hist π) (hT : h.Topo) (hW : h.InWindow) (pl : Plug π β) (g : Graph β)
+variable (hg : rgraph h pl = .ok g) (j : Nat) (b : Branch) (B : RepBranch) (hB : IsBranch h g j b B)
+include hT hW hg hB
 
 /-- **C06.only_matching** — every build of a branch in the report stands at a build of the branch in the sense of
 the property (a tagged commit or the head, reachable from the head, not part of a lower-sorted branch), and every
@@ -157,6 +171,7 @@ commit listed under it matches and is contained in that build (so it is reachabl
 theorem only_matching :
     ∀ bd ∈ B.builds, bd.notMerged = false → ∃ e, bd.commit = some e ∧ SpecBuild h (lower h j) b e ∧
       ∀ c ∈ bd.commits, h.isMatch c = true ∧ Anc h c e ∧ Anc h c b.head := by
+  have hg := rgraph_nw hT hW hg
   obtain ⟨hb, rb, hrb, rfl⟩ := hB
   have hs := ((rgraph_sem hT hg).2 j b rb hb hrb).1
   have hf := rgraph_facts hT hg
@@ -177,6 +192,7 @@ the branch that contains the commit is an ancestor of the build it is listed und
 theorem under_minimal_build :
     ∀ bd ∈ B.builds, bd.notMerged = false → ∀ e, bd.commit = some e → ∀ c ∈ bd.commits,
       ∀ e', SpecBuild h (lower h j) b e' → Anc h c e' → Anc h e' e → e' = e := by
+  have hg := rgraph_nw hT hW hg
   obtain ⟨hb, rb, hrb, rfl⟩ := hB
   have hs := ((rgraph_sem hT hg).2 j b rb hb hrb).1
   intro bd hbd hnm e he c hc e' hspec' hce' hee'
@@ -193,6 +209,7 @@ build of the branch is listed under a build of the branch -/
 theorem exactly_once :
     ∀ e', SpecBuild h (lower h j) b e' → ∀ c, Anc h c e' → h.isMatch c = true →
       ∃ bd ∈ B.builds, bd.notMerged = false ∧ c ∈ bd.commits := by
+  have hg := rgraph_nw hT hW hg
   obtain ⟨hb, rb, hrb, rfl⟩ := hB
   have hs := ((rgraph_sem hT hg).2 j b rb hb hrb).1
   intro e' hspec' c hc hm
@@ -206,6 +223,7 @@ that are not reachable from this head, and it is present whenever there is such 
 theorem not_merged_exact :
     (∀ bd ∈ B.builds, bd.notMerged = true → ∀ c, c ∈ bd.commits ↔ SpecNotMerged h (lower h j) b c) ∧
     (∀ c, SpecNotMerged h (lower h j) b c → ∃ bd ∈ B.builds, bd.notMerged = true) := by
+  have hg := rgraph_nw hT hW hg
   obtain ⟨hb, rb, hrb, rfl⟩ := hB
   have hs := ((rgraph_sem hT hg).2 j b rb hb hrb).1
   constructor
@@ -225,8 +243,9 @@ theorem at_most_once :
     (∀ bd ∈ B.builds, bd.commits.Nodup) ∧
     (∀ (i1 i2 : Nat) (b1 b2 : RepBuild), B.builds[i1]? = some b1 → B.builds[i2]? = some b2 →
       ∀ c, c ∈ b1.commits → c ∈ b2.commits → i1 = i2) := by
-  have hom := only_matching h hT pl g hg j b B hB
-  have hnm := (not_merged_exact h hT pl g hg j b B hB).1
+  have hom := only_matching h hT hW pl g hg j b B hB
+  have hnm := (not_merged_exact h hT hW pl g hg j b B hB).1
+  have hg := rgraph_nw hT hW hg
   obtain ⟨hb, rb, hrb, rfl⟩ := hB
   have hf := rgraph_facts hT hg
   have hfb := hf.facts rb (List.mem_of_getElem? hrb)
@@ -313,18 +332,31 @@ theorem report_total_single (h : Hist Unit) (hT : h.Topo) (hrefs : ∀ r ∈ h.r
 kernel — the hypotheses `Hist.Topo` and `report … = .ok …` are satisfiable and the report is not empty. -/
 
 def exHist : Hist Unit :=
-  { commits := [⟨[], [], true, ()⟩, ⟨[0], [⟨1, 2, 7, 7⟩], false, ()⟩, ⟨[0], [], true, ()⟩,
-                ⟨[2, 1], [⟨1, 2, 9, 9⟩], false, ()⟩, ⟨[3], [], true, ()⟩, ⟨[1], [], true, ()⟩],
+  { commits := [⟨[], [], true, (), 0⟩, ⟨[0], [⟨1, 2, 7, 7⟩], false, (), 86400⟩, ⟨[0], [], true, (), 2 * 86400⟩,
+                ⟨[2, 1], [⟨1, 2, 9, 9⟩], false, (), 20 * 86400⟩, ⟨[3], [], true, (), 29 * 86400⟩,
+                ⟨[1], [], true, (), 3 * 86400⟩],
     remote := "origin".toList,
     refs := [("origin/master".toList, 4), ("origin/release/1.2".toList, 5), ("origin/feature/x".toList, 2)] }
 
 example : exHist.Topo := Hist.topo_of_topoB _ (by decide)
 
+example : exHist.InWindow := Hist.inWindow_of_B (by decide)
 
 example : report exHist Plug.none = .ok
     [⟨"master".toList, [⟨true, fakeNM, none, [5]⟩, ⟨false, fakeNB, some 4, [4]⟩,
                         ⟨false, ⟨1, 2, 9, 9⟩, some 3, [2, 0]⟩]⟩,
      ⟨"release/1.2".toList, [⟨false, fakeNB, some 5, [5]⟩, ⟨false, ⟨1, 2, 7, 7⟩, some 1, [0]⟩]⟩] := by
+  decide +kernel
+
+/-- outside the window the hypothesis is needed: with the head of `master` more than 30 days older than the builds
+of `release/1.2`, `master` is treated as obsolete and not reported at all -/
+def exOld : Hist Unit :=
+  { exHist with commits := [⟨[], [], true, (), 40 * 86400⟩, ⟨[0], [⟨1, 2, 7, 7⟩], false, (), 41 * 86400⟩,
+                            ⟨[0], [], true, (), 2 * 86400⟩, ⟨[2, 1], [⟨1, 2, 9, 9⟩], false, (), 3 * 86400⟩,
+                            ⟨[3], [], true, (), 4 * 86400⟩, ⟨[1], [], true, (), 42 * 86400⟩] }
+
+example : report exOld Plug.none = .ok
+    [⟨"release/1.2".toList, [⟨false, fakeNB, some 5, [5]⟩, ⟨false, ⟨1, 2, 7, 7⟩, some 1, [0]⟩]⟩] := by
   decide +kernel
 
 end C06
